@@ -270,6 +270,8 @@ def instrumented(log, inject, st):
                 log.add('INJECT', name, inject['when'], inject['exc'])
                 if inject['exc'] == 'asm':
                     raise asm.AssemblerError('injected failure in %s' % name, asm.Line('<injected>', 1, 'injected'))
+                if inject['exc'] == 'oserror':
+                    raise OSError(5, 'injected I/O error in %s' % name)
                 raise ForeignError('injected foreign failure in %s' % name)
             if fire and inject['when'] == 'entry':
                 boom()
